@@ -441,7 +441,17 @@ class Sim:
             return
         self.write_events += 1
         plan = self.crash_plan
-        if plan is not None and plan['party'] == i and not plan.get('done'):
+        if plan is not None and plan['party'] == i and not plan.get('done') and plan.get('hs_peer') is not None:
+            # crash INSIDE the opening handshake to one peer: only the first `cut` bytes of it are written
+            if plan['hs_peer'] == j and not self._is_frame_write(i, j):
+                cut = min(plan['cut'], len(data))
+                self.log[i, j] += data[:cut]
+                if j not in self.crashed:
+                    self.wire[i, j] += data[:cut]
+                self._crash(i, plan.get('eof', True))
+                plan.update(done=True, cut_applied=cut, frame_len=len(data), dst=j)
+                return
+        elif plan is not None and plan['party'] == i and not plan.get('done'):
             # count frames (every write after the handshake is exactly one frame)
             if self.frames_written[i] >= plan['after_frames'] and self._is_frame_write(i, j):
                 cut = min(plan['cut'], len(data))
